@@ -26,6 +26,7 @@ of the behaviour (breaking it makes results wrong for the inputs named), each vi
  6 every constructor (in particular the copy constructor that the task executors use for the per-worker kernels)
    initialises the same members from the same sources and runs the same table builders.
 """
+import os
 import re
 
 import sympy
@@ -649,6 +650,26 @@ def stateless(facts, res, cls=K, R="C04.5.stateless-operators"):
     return n
 
 
+def no_mutable_members(facts, res, R, prefix, classes=None):
+    """the operators of a kernel are const member functions, or are handed the kernel as const by the wrappers: what they compute depends on
+    their arguments and on tables fixed at construction.  A `mutable` data member is the one way around that: state written from a const
+    operator and carried to the next call of the same kernel object - and kernel objects live as long as the algorithm object, across
+    move / rebuild / execute cycles.  (A scratch buffer that every call redefines before use needs no `mutable`: the operators that use
+    one are non-const and the buffer is decided by the carried-state rules.)"""
+    n = 0
+    for c in facts.classes:
+        if classes is not None and c["name"] not in classes:
+            continue
+        if classes is None and not tbf.rel(facts.path_of(c)).startswith(prefix):
+            continue
+        n += 1
+        for f_ in c.get("fields", []):
+            if f_.get("mutable"):
+                res.violation(R, tbf.rel(facts.path_of(f_)), c["name"], "mutable-member:%s.%s" % (c["name"], f_["name"]), f_["l"][1],
+                              "'%s' is a mutable member of %s (`%s`): const operators can write it, so a call can depend on what an earlier call - of an earlier execution, before the particles moved - left in it" % (f_["name"], c["name"], f_.get("t", "")[:70]))
+    return n
+
+
 def ctor_agreement(facts, res, R="C04.6.constructors-agree"):
     cs = member_sources(facts, res)
     ref = None
@@ -826,6 +847,15 @@ def run(res, tier):
     res.rule("C04.4 leaf centre = corner + (coordinate + 1/2) leaf width, shared by P2M and L2P")
     res.rule("C04.5 operator-reachable code writes no kernel member and keeps no static local")
     res.rule("C04.6 all constructors initialise the same members and run the same table builders")
+    res.rule("C04.5b no class of the rotation kernel or of the periodic shifter has a mutable data member (state a const operator could carry to the next call)")
+    nm_ = no_mutable_members(facts, res, "C04.5.stateless-operators", "src/kernels/rotationkernel/") + no_mutable_members(facts, res, "C04.5.stateless-operators", "src/utils/tbfperiodicshifter")
+    res.floor("C04.5b", nm_, 3, "classes examined for mutable members")
+    fxm = os.path.join(tbf.VERIF, "fixtures", "c04_mutable.cpp")
+    ctlm = tbf.Result("C04")
+    no_mutable_members(tbf.scan_file(fxm, [], [os.path.join(tbf.VERIF, "fixtures") + os.sep]), ctlm, "C04.5.stateless-operators", "", classes=("CachingKernel", "PlainKernel"))
+    if len(ctlm.violations) != 1 or "CachingKernel" not in ctlm.violations[0]["key"]:
+        raise AnalysisBroken("positive control fixtures/c04_mutable.cpp: %d of 1 mutable members reported" % len(ctlm.violations))
+    res.instance("C04.5.stateless-operators", "positive control (mutable)", "verif:fixtures/c04_mutable.cpp", "1 of 1 mutable members reported")
     res.assumptions.append("the truncation error bound and everything about the spherical-harmonic formulas is NOT decided; the leaf width / box corner of the configuration are those decided by C06.6")
     res.trusted = ["clang 14 + tbfscan", "sympy normal forms", "symx closed forms of geometric / arithmetic recurrences", "operator role table (coherence.ROLES)"]
     res.checker_cmds.append("./check C04")
